@@ -68,6 +68,14 @@ func (r *Reader) readIloc(b *box) (err error) {
 		entrySize += 2
 		extentSize += int(ilb.indexSize)
 	}
+	// The items are told apart by the ids that iinf assigns. Writers put iloc in
+	// front of iinf as well: then the entries of this box are kept (as many as
+	// the box can hold) until iinf has been read.
+	keep := r.heic.exif.id == 0 && r.heic.xml.id == 0 && r.heic.pending == nil
+	if keep {
+		r.heic.pending = make([]item, 0, b.remain/entrySize)
+	}
+
 	// The entries are read one at a time: the box may be larger than the buffer.
 	for b.remain >= entrySize {
 		n := entrySize + extentSize
@@ -120,10 +128,14 @@ func (r *Reader) readIloc(b *box) (err error) {
 			logDebug().Object("entry", ent).Send()
 		}
 
-		switch ent.id {
-		case r.heic.exif.id:
+		switch {
+		case keep:
+			if len(r.heic.pending) < cap(r.heic.pending) {
+				r.heic.pending = append(r.heic.pending, item{id: ent.id, ol: ent.firstExtent})
+			}
+		case ent.id == r.heic.exif.id:
 			r.heic.exif.ol = ent.firstExtent
-		case r.heic.xml.id:
+		case ent.id == r.heic.xml.id:
 			r.heic.xml.ol = ent.firstExtent
 		}
 
